@@ -44,6 +44,9 @@ pub struct RcCase {
     /// the clock advances in steps of this many ms (stalled executor: timers are seen late)
     #[serde(default = "one")]
     pub step_ms: u64,
+    /// concurrent mode: request i is issued this many ms after the start (missing = 0)
+    #[serde(default)]
+    pub starts: Vec<u64>,
     /// sequential requests; per request a script of (latency ms, outcome: 0 ok, 1 reconnectable, 2 other error)
     pub requests: Vec<Vec<(u64, u8)>>,
 }
@@ -68,8 +71,9 @@ fn case_strategy(_tier: Tier) -> BoxedStrategy<RcCase> {
         prop::collection::vec(script, 1..=3),
         prop::bool::weighted(0.4),
         prop_oneof![5 => Just(1u64), 1 => Just(2u64), 1 => Just(5u64), 1 => 2u64..=40],
+        prop_oneof![1 => Just(vec![]), 2 => prop::collection::vec(prop_oneof![1 => Just(0u64), 2 => 0u64..=25], 3)],
     )
-        .prop_map(|(max_attempts, policy, retry_on_reconnect, predicate, mut requests, concurrent, step_ms)| {
+        .prop_map(|(max_attempts, policy, retry_on_reconnect, predicate, mut requests, concurrent, step_ms, starts)| {
             if max_attempts.is_none() {
                 // unlimited attempts: make every script end in a success so the case terminates
                 for s in requests.iter_mut() {
@@ -83,6 +87,7 @@ fn case_strategy(_tier: Tier) -> BoxedStrategy<RcCase> {
                 predicate,
                 concurrent,
                 step_ms,
+                starts,
                 requests,
             }
         })
@@ -183,41 +188,77 @@ async fn interp(case: &RcCase) -> Verdict {
     let mut any_terminal = false;
     // ---- execution: sequential requests, or all of them in flight at once on clones of the service
     let n = case.requests.len();
-    let mut tasks: Vec<usize> = vec![];
+    let mut tasks: Vec<usize> = vec![usize::MAX; n];
     let mut mids: Vec<Option<u64>> = vec![None; n];
+    // "connected after a success": state writes happen in the poll that observes an inner result,
+    // so whenever the most recent inner completion is a success the published state is Connected
+    fn state_after_success(
+        log: &Log,
+        state: &tower_resilience_reconnect::ReconnectState,
+        violations: &mut Vec<String>,
+    ) {
+        let last_ok = log.with(|l| {
+            l.iter().rev().find_map(|e| match e {
+                Ev::Done { ok, t, serial } => Some((*ok, *t, *serial)),
+                _ => None,
+            })
+        });
+        if let Some((true, t, serial)) = last_ok {
+            let st = state.state();
+            if st != ConnectionState::Connected && violations.is_empty() {
+                violations.push(format!(
+                    "t={}: the most recent inner call (number {serial}) succeeded at t={t} but the published state is {st:?}",
+                    sim::now()
+                ));
+            }
+        }
+    }
     if case.concurrent && n > 1 {
         let mut second = layer.layer(inner.clone());
-        for i in 0..n {
-            let req = Req {
-                id: i as u32,
-                key: 0,
-                tag: 0x4EC0 + i as u64,
-            };
-            // alternate between a clone of the first service and a second service of the same layer
-            let fut = if i % 2 == 0 {
-                let mut c = svc.clone();
-                let _ = futures::future::poll_fn(|cx| c.poll_ready(cx)).await;
-                c.call(req)
-            } else {
-                let _ = futures::future::poll_fn(|cx| second.poll_ready(cx)).await;
-                second.call(req)
-            };
-            tasks.push(sim.spawn_call(fut, |r| match r {
-                Ok(resp) => Outcome::Ok {
-                    serial: resp.serial,
-                    req: resp.req,
-                },
-                Err(e) => Outcome::Other(format!("{e}")),
-            }));
-        }
-        sim.settle().await;
+        let start_of = |i: usize| case.starts.get(i).copied().unwrap_or(0);
+        let mut issued = vec![false; n];
         let mut guard = 0;
-        while tasks.iter().any(|&t| sim.state(t) == TaskState::Live) {
-            crate::vclock::advance_ms(case.step_ms.max(1) - 1);
-            sim.tick().await;
+        let mut elapsed = 0u64;
+        loop {
+            for i in 0..n {
+                if issued[i] || start_of(i) > elapsed {
+                    continue;
+                }
+                issued[i] = true;
+                let req = Req {
+                    id: i as u32,
+                    key: 0,
+                    tag: 0x4EC0 + i as u64,
+                };
+                // alternate between a clone of the first service and a second service of the same layer
+                let fut = if i % 2 == 0 {
+                    let mut c = svc.clone();
+                    let _ = futures::future::poll_fn(|cx| c.poll_ready(cx)).await;
+                    c.call(req)
+                } else {
+                    let _ = futures::future::poll_fn(|cx| second.poll_ready(cx)).await;
+                    second.call(req)
+                };
+                tasks[i] = sim.spawn_call(fut, |r| match r {
+                    Ok(resp) => Outcome::Ok {
+                        serial: resp.serial,
+                        req: resp.req,
+                    },
+                    Err(e) => Outcome::Other(format!("{e}")),
+                });
+            }
+            sim.settle().await;
+            state_after_success(&log, &state, &mut violations);
+            if issued.iter().all(|&x| x) && tasks.iter().all(|&t| sim.state(t) != TaskState::Live) {
+                break;
+            }
+            let step = case.step_ms.max(1);
+            crate::vclock::advance_ms(step - 1);
+            sim.begin_instant().await;
+            elapsed += step;
             guard += 1;
             if guard > 6_000 {
-                violations.push("concurrent requests did not all resolve within 6000 ms".to_string());
+                violations.push("concurrent requests did not all resolve within 6000 steps".to_string());
                 break;
             }
         }
@@ -237,8 +278,9 @@ async fn interp(case: &RcCase) -> Verdict {
                 },
                 Err(e) => Outcome::Other(format!("{e}")),
             });
-            tasks.push(task);
+            tasks[i] = task;
             sim.settle().await;
+            state_after_success(&log, &state, &mut violations);
             let mut guard = 0;
             while sim.state(task) == TaskState::Live {
                 // sample the published state while nothing is running (i.e. during a backoff sleep)
@@ -247,6 +289,7 @@ async fn interp(case: &RcCase) -> Verdict {
                 }
                 crate::vclock::advance_ms(case.step_ms.max(1) - 1);
                 sim.tick().await;
+                state_after_success(&log, &state, &mut violations);
                 guard += 1;
                 if guard > 3_000 {
                     violations.push(format!("request {i} did not resolve within 3000 ms"));
@@ -423,6 +466,9 @@ async fn interp(case: &RcCase) -> Verdict {
     }
     if case.step_ms > 1 {
         classes.push("coarse_clock_steps");
+    }
+    if !sequential && case.starts.iter().any(|&x| x > 0) {
+        classes.push("staggered_concurrent_requests");
     }
     Verdict {
         violations,
